@@ -27,6 +27,9 @@ FINDINGS = [
     ('C17', 'beamer-state.json', 'C17|state|class-setting|plasTeX.Base.LaTeX.Lists:itemize.args',
      {'property': 'C17', 'seed': 3, 'swarm': {'scrub': False, 'base': 'minimal', 'exec_ref': False, 'hashseed': 1},
       'ops': [job(['textbf'], cls='beamer')]}),
+    ('C17', 'coltype-state.json', 'C17|state|class-setting|plasTeX.Base.LaTeX.Arrays:ColumnType.columnTypes',
+     {'property': 'C17', 'seed': 6, 'swarm': {'scrub': False, 'base': 'minimal', 'exec_ref': False, 'hashseed': 1},
+      'ops': [job(['prog_coltype_right'])]}),
     ('C04', 'global-prefix-def.json', 'C04|tex|global-prefix|def',
      {'property': 'C04', 'seed': 4, 'swarm': {'transports': ['tex'], 'global_prefix': True},
       'ops': [{'op': 'OPEN', 'kind': 'brace'}, {'op': 'DEF_GLOBAL', 'name': 'na', 'id': 7}, {'op': 'CLOSE'}, {'op': 'PROBE', 'what': 'na'}]}),
